@@ -41,9 +41,28 @@ ARG_SRC = {
     "undefined": "undefined", "null": "null", "nan": "NaN", "inf": "Infinity", "ninf": "-Infinity", "m1": "-1",
     "zero": "0", "p31": "2147483648", "p53": "9007199254740992", "e21": "1e21", "half": "0.5", "s7": "'7'", "sx": "'x'", "sparen": "'('", "sbrack": "'['",
     "obj": "({})", "arr": "[]", "fn": "(function(){return 1})",
+    # negative mirrors of the numeric values, true, the empty string (C04.tla MirrorClasses)
+    "nzero": "-0", "n31": "-2147483649", "n53": "-9007199254740992", "ne21": "-1e21", "nhalf": "-0.5", "true": "true", "sempty": "''",
+    # objects of the built-in kinds (KindClasses)
+    "regex": "(/a/g)", "abuf": "(new ArrayBuffer(8))", "tarr": "(new Uint8Array(2))", "arr12": "[1, 2]",
 }
 ARG_PY = {"nan": float("nan"), "inf": float("inf"), "ninf": float("-inf"), "m1": -1.0, "zero": 0.0, "p31": 2147483648.0,
-          "p53": 9007199254740992.0, "e21": 1e21, "half": 0.5}
+          "p53": 9007199254740992.0, "e21": 1e21, "half": 0.5,
+          "nzero": -0.0, "n31": -2147483649.0, "n53": -9007199254740992.0, "ne21": -1e21, "nhalf": -0.5}
+# the numeric values (C04.tla NumVals) and the routes by which an argument reaches ToNumber (Routes): <route>_<value>
+NUM_VALS = ["nan", "inf", "ninf", "m1", "zero", "nzero", "p31", "n31", "p53", "n53", "e21", "ne21", "half", "nhalf"]
+ROUTES = {"s": "'%s'", "v": "({valueOf: function () { return %s }})", "a": "[%s]"}
+
+
+def arg_src(a):
+    """JavaScript text of an argument class"""
+    if a in ARG_SRC:
+        return ARG_SRC[a]
+    rt, _, nv = a.partition("_")
+    if rt not in ROUTES or nv not in NUM_VALS:
+        raise ValueError("unknown argument class " + a)
+    return ROUTES[rt] % ARG_SRC[nv]
+
 
 RECEIVERS = {
     "global": None, "Math": "Math", "JSON": "JSON", "Object": "Object", "Array": "Array", "Number": "Number",
@@ -52,7 +71,11 @@ RECEIVERS = {
     "str": "'abc'", "arr": "[3,1,2]", "num": "(5.5)", "int": "(7)", "obj": "({a:1})", "fn": "(function(a,b){return a})",
     "regex": "(/a/g)", "tarr": "(new Uint8Array(4))", "f64": "(new Float64Array(2))", "abuf": "(new ArrayBuffer(8))",
     "err": "(new Error('x'))", "bool": "true", "native": "Math.abs", "arrow": "((a) => a)",
+    # shape / value variants of a receiver kind: empty array, empty string, the non-finite and the huge number
+    "arr0": "[]", "str0": "''", "numnan": "(NaN)", "numninf": "(-Infinity)", "nume21": "(1e21)",
 }
+# the variants get the short vectors in the quick tier (C04.tla ShortVector), all vectors in the thorough tier
+VARIANT_RECEIVERS = ["arr0", "str0", "numnan", "numninf", "nume21"]
 
 # numeric literals of n digits (C04.tla LongForms): d = the digit 1 or the largest digit of the radix
 LONG_FORMS = {
@@ -76,6 +99,7 @@ LT_TEXT = {"lf": "\n", "cr": "\r", "crlf": "\r\n", "ls": "\u2028", "ps": "\u2029
 LONG_EMBEDS = {"expr": "%s", "neg": "-%s", "arg": "Math.abs(%s)", "key": "({%s: 1})", "index": "[1][%s]"}
 
 _names = None
+_discovered = {}
 _rlimit_done = False
 
 
@@ -121,6 +145,15 @@ def harvest_names():
 
 def discover(api, recv):
     """function-valued properties of a receiver kind, found by asking the engine"""
+    if recv in _discovered:
+        return _discovered[recv]
+    found = _discover(api, recv)
+    if found:                                      # (an empty answer is not kept: the next slice asks again)
+        _discovered[recv] = found
+    return found
+
+
+def _discover(api, recv):
     names = harvest_names()
     ctx = api.Context(time_limit=5.0)
     found = []
@@ -135,10 +168,7 @@ def discover(api, recv):
     ctx.set("__names", names)
     src = ("var __r = %s; var __o = []; for (var __i = 0; __i < __names.length; __i++) { "
            "try { if (typeof __r[__names[__i]] === 'function') __o.push(__names[__i]); } catch (e) {} } __o" % RECEIVERS[recv])
-    try:
-        return list(ctx.eval(src))
-    except Exception:
-        return found
+    return list(ctx.eval(src))                     # (a failure here is a failure of the machinery: it propagates)
 
 
 def line_lengths(src):
@@ -259,6 +289,8 @@ def grid(case, api):
     alloc, huge = set(case["allocating"]), set(case["huge"])
     res = [{"id": case["id"], "discovered": fns, "recv": recv}]
     forms = ["call"] + (["new"] if recv == "global" else [])
+    if "only" in case:                             # one call observed again (checks/c04.py reobserve_hangs)
+        fns, forms = [case["only"]], [case["form"]]
     for fn in fns:
         for form in forms:
             for vi, vec in enumerate(case["vecs"]):
@@ -271,7 +303,7 @@ def grid(case, api):
                         sets.append(("__a%d" % ai, ARG_PY[a]))
                         names.append("__a%d" % ai)
                     else:
-                        names.append(ARG_SRC[a])
+                        names.append(arg_src(a))
                 args = ", ".join(names)
                 if RECEIVERS[recv] is None:
                     src = ("new " if form == "new" else "") + "%s(%s)" % (fn, args)
